@@ -418,6 +418,13 @@ impl Scenario for ConsumerLife {
             json!({"how": "server-cancel", "nowait": false}),
             json!({"how": "server-cancel", "nowait": true}),
             json!({"how": "conn-drop"}),
+            // fine mode: the client may run between the I/O thread's reply to the cancel call and
+            // its terminal message to the consumer queue
+            json!({"how": "drop", "fine": true}),
+            // the consumer and every copy of its receiver are gone when the cancel returns
+            json!({"how": "drop-all"}),
+            json!({"how": "drop-all", "fine": true}),
+            json!({"how": "cancel-twice", "fine": true}),
         ]
     }
     fn bound(&self, tier: &str, _p: &Value) -> usize {
@@ -459,6 +466,10 @@ impl Scenario for ConsumerLife {
         }
         let mut cfg = EnvConfig::default();
         cfg.time = false;
+        cfg.fine = p["fine"] == true;
+        if cfg.fine {
+            cfg.max_steps = 20000;
+        }
         Built {
             broker: Box::new(broker),
             cfg,
@@ -478,6 +489,18 @@ impl Scenario for ConsumerLife {
                         return;
                     }
                 };
+                if how == "drop-all" {
+                    drop(consumer);
+                    ctx.log("dropped");
+                    // the channel and the connection are as good as before
+                    let r = ch.qos(0, 1, false);
+                    ctx.log(format!("qos -> {}", res(&r)));
+                    let r = ch.close();
+                    ctx.log(format!("chclose -> {}", res(&r)));
+                    let r = conn.close();
+                    ctx.log(format!("close -> {}", res(&r)));
+                    return;
+                }
                 let rx = consumer.receiver().clone();
                 if how == "drop-unwinding" {
                     // the consumer goes out of scope because the code holding it panics
@@ -546,6 +569,18 @@ impl Scenario for ConsumerLife {
         let msgs: Vec<String> = main.iter().filter(|l| l.starts_with("consumer <- ")).map(|l| l.trim_start_matches("consumer <- ").to_string()).collect();
         let disconnected = main.iter().any(|l| l == "consumer disconnected");
         let (deliveries, rest): (Vec<&String>, Vec<&String>) = msgs.iter().partition(|m| m.starts_with("Delivery"));
+        if how == "drop-all" {
+            let want = vec!["dropped", "qos -> Ok", "chclose -> Ok", "close -> Ok"];
+            if main != want {
+                v.push(("consumer:drop-disturbs-the-connection".into(), format!("a consumer was dropped (nobody holds its queue any more); afterwards: {:?}", main)));
+            }
+            let (envs, _) = wire_frames(o);
+            let cancels = envs.iter().filter(|e| e.chan == 1 && is_method(e, 60, 30)).count();
+            if cancels != 1 {
+                v.push(("consumer:cancel-frames".into(), format!("drop-all: {} Basic.Cancel frames written, expected 1", cancels)));
+            }
+            return v;
+        }
         let terminal = match how {
             "cancel-twice" | "drop" | "drop-unwinding" | "cancel-held" => "ClientCancelled",
             "forget-close" => "ClientClosedChannel",
@@ -808,11 +843,14 @@ impl Scenario for Listeners {
     }
     fn variants(&self, _tier: &str) -> Vec<Value> {
         // flood: listeners that are not read while 300 confirms and 300 returned messages arrive
-        vec![json!({"drop_second": false}), json!({"drop_second": true}), json!({"flood": 300})]
+        vec![json!({"drop_second": false}), json!({"drop_second": true}), json!({"flood": 300}), json!({"drop_second": false, "fine": true}), json!({"drop_second": true, "fine": true})]
     }
     fn bound(&self, tier: &str, p: &Value) -> usize {
         if p["flood"].is_u64() {
             return if tier == "thorough" { 1 } else { 0 };
+        }
+        if p["fine"] == true {
+            return if tier == "thorough" { 2 } else { 1 };
         }
         if tier == "thorough" {
             3
@@ -841,6 +879,10 @@ impl Scenario for Listeners {
         let drop_second = p["drop_second"] == true;
         let mut cfg = EnvConfig::default();
         cfg.time = false;
+        cfg.fine = p["fine"] == true;
+        if cfg.fine {
+            cfg.max_steps = 20000;
+        }
         Built {
             broker: Box::new(broker),
             cfg,
